@@ -766,10 +766,16 @@ class PayloadSK(Payload):
         return self.ciphertext
 
     def decrypt(self, crypto):
-        iv = self.ciphertext[:crypto.cipher.block_size]
-        ciphertext = self.ciphertext[crypto.cipher.block_size:-crypto.integrity.hash_size]
+        block_size = crypto.cipher.block_size
+        iv = self.ciphertext[:block_size]
+        ciphertext = self.ciphertext[block_size:-crypto.integrity.hash_size]
+        # there must be a whole IV and a non-empty whole number of encrypted blocks
+        if len(iv) != block_size or len(ciphertext) == 0 or len(ciphertext) % block_size != 0:
+            raise InvalidSyntax('Invalid length of the encrypted payload')
         decrypted = crypto.cipher.decrypt(crypto.sk_e, bytes(iv), bytes(ciphertext))
         padlen = decrypted[-1]
+        if padlen + 1 > len(decrypted):
+            raise InvalidSyntax('Invalid pad length in the encrypted payload')
         return iv, decrypted[:-1 - padlen]
 
     @classmethod
